@@ -142,7 +142,20 @@ Section MoreRules.
   Variable bodies : ResultType.env.
   Theorem alloca_type_generated e a :
     run_type "ir.InstAlloca" [("ElemType", reify_ty e); ("AddrSpace", VEnum "types.AddrSpace" (Z.of_N a)); ("NElems", VNil)] = expect (ir_type bodies (Alloca e a)).
-  Proof. reflexivity. Qed.
+  Proof. (* the body compares the cached address space with the current one (fix 90ed987) *)
+    cbv -[Z.eqb Z.of_N reify_ty]. rewrite Z.eqb_refl. reflexivity. Qed.
+  (* the same body on an instruction whose type was cached with another address space (NewAlloca, then
+     inst.AddrSpace = a): the type returned carries the current address space *)
+  Theorem alloca_type_stale_cache_generated e a a0 :
+    call_printer impl globals 3 "ir.InstAlloca" "Type"
+      (VObj "ir.InstAlloca" [("Typ", reify_ty (TPtr e a0)); ("ElemType", reify_ty e); ("AddrSpace", VEnum "types.AddrSpace" (Z.of_N a)); ("NElems", VNil)])
+    = expect (ir_type bodies (Alloca e a)).
+  Proof.
+    change (reify_ty (TPtr e a0)) with (VObj (tyname (TPtr e a0)) (tfields (TPtr e a0))). cbn [tyname tfields].
+    cbv -[Z.eqb Z.of_N reify_ty]. destruct (Z.eqb_spec (Z.of_N a0) (Z.of_N a)) as [E|E].
+    - apply N2Z.inj in E. subst a0. reflexivity.
+    - reflexivity.
+  Qed.
   Theorem phi_type_generated d x :
     run_type "ir.InstPhi" [("Incs", VList [VObj "ir.Incoming" [("X", operand d)]; VObj "ir.Incoming" [("X", operand x)]])] = expect (ir_type bodies (Phi d [d; x])).
   Proof. reflexivity. Qed.
